@@ -210,7 +210,8 @@ class Statement(object):
             rel_index = self.operand.left.extract_address_index_from_expression()
 
         range_count = range(this_index, rel_index)
-        if rel_index < this_index:
+        if rel_index <= this_index:
+            # A label on this very line lies behind the program counter, like any earlier label
             positive_range = False
             range_count = range(rel_index, this_index)
 
